@@ -119,6 +119,9 @@ void harness (void)
       if (IN.flags[i] & O_DESTRUCTED) __CPROVER_assume (IN.parent[i] == -1);
     }
   __CPROVER_assume (!(IN.flags[0] & O_DESTRUCTED));          /* efun guards refuse a destructed item */
+#ifdef NO_COMMANDS
+  for (i = 0; i < NO; i++) __CPROVER_assume (!(IN.flags[i] & O_ENABLE_COMMANDS));   /* no living objects: remove_sent is not entered */
+#endif
   build_forest (IN.parent);
 #ifdef MODE_DESTRUCT
   /* destruct_object(A0): move_or_destruct() of every content is an LPC callback (same havoc as init(): it may move anything,
